@@ -167,6 +167,8 @@ type State struct {
 	errPos   string
 	readStale []string
 	panicked string // a runtime panic was reached while evaluating an expression
+	assigned map[string]bool // receiver fields assigned in this arm
+	garbage  map[string]bool // scratch buffers whose content was consumed (or is left over) and not truncated since
 }
 
 type pushRec struct {
@@ -223,6 +225,18 @@ func (s *State) clone() *State {
 		sc := *s.scan
 		n.scan = &sc
 	}
+	if s.assigned != nil {
+		n.assigned = make(map[string]bool, len(s.assigned))
+		for k := range s.assigned {
+			n.assigned[k] = true
+		}
+	}
+	if s.garbage != nil {
+		n.garbage = make(map[string]bool, len(s.garbage))
+		for k := range s.garbage {
+			n.garbage[k] = true
+		}
+	}
 	n.events = append([]Event(nil), s.events...)
 	n.notes = append([]string(nil), s.notes...)
 	n.popped = append([]string(nil), s.popped...)
@@ -244,6 +258,9 @@ func (s *State) ctrlKey(localNames map[any]string) string {
 		if n, ok := localNames[k]; ok {
 			parts = append(parts, "l."+n+"="+v.String())
 		}
+	}
+	for k := range s.garbage {
+		parts = append(parts, "g."+k)
 	}
 	sort.Strings(parts)
 	return strings.Join(parts, " ")
